@@ -364,7 +364,7 @@ func blankVariant(text string) string {
 // apart), an erroring element gives an error, the input is unchanged, and the same call gives
 // the same answer every time (C14).
 type c17NaNCase struct {
-	KeyKind int    `json:"key_kind"` // 0 float64, 1 float32, 2 interface{}, 3 [1]float64, 4 struct{F float64}
+	KeyKind int    `json:"key_kind"` // 0 float64, 1 float32, 2 interface{}, 3 [1]float64, 4 struct{F float64}; 5 interface{} and 6 error with the NIL key instead of NaN
 	Elems   string `json:"elems"`    // one letter per NaN-keyed entry: T, F, E
 	Plain   string `json:"plain"`    // entries under ordinary keys
 	Text    string `json:"text"`
@@ -398,8 +398,30 @@ func c17NaNMap(c *c17NaNCase) (interface{}, int) {
 		m = reflect.MakeMap(reflect.MapOf(reflect.TypeOf((*interface{})(nil)).Elem(), et))
 	case 3:
 		m = reflect.MakeMap(reflect.MapOf(reflect.TypeOf([1]float64{}), et))
-	default:
+	case 4:
 		m = reflect.MakeMap(reflect.MapOf(reflect.TypeOf(sk{}), et))
+	case 5:
+		m = reflect.MakeMap(reflect.MapOf(reflect.TypeOf((*interface{})(nil)).Elem(), et))
+	default:
+		m = reflect.MakeMap(reflect.MapOf(reflect.TypeOf((*error)(nil)).Elem(), et))
+	}
+	if c.KeyKind >= 5 {
+		// the nil interface as key (what `~:` / `null:` decode to), next to non-nil keys of several dynamic types
+		for i := range c.Elems[:min(1, len(c.Elems))] {
+			m.SetMapIndex(reflect.Zero(m.Type().Key()), reflect.ValueOf(elem(c.Elems[i], i)))
+			n++
+		}
+		for i := range c.Plain {
+			var k interface{} = i + 1
+			if i%2 == 1 {
+				k = "k" + strconv.Itoa(i)
+			}
+			if c.KeyKind == 6 {
+				k = fmt.Errorf("e%d", i)
+			}
+			put(m, k, elem(c.Plain[i], 100+i))
+		}
+		return m.Interface(), n
 	}
 	for i := range c.Elems {
 		switch c.KeyKind {
@@ -436,10 +458,14 @@ func c17NaNRun(t failer, property, test string, c *c17NaNCase) {
 	}
 	want := "kept:"
 	var keptIdx []int
-	for i, ch := range c.Elems + c.Plain {
+	elems := c.Elems
+	if c.KeyKind >= 5 && len(elems) > 1 {
+		elems = elems[:1]
+	}
+	for i, ch := range elems + c.Plain {
 		idx := i
-		if i >= len(c.Elems) {
-			idx = 100 + i - len(c.Elems)
+		if i >= len(elems) {
+			idx = 100 + i - len(elems)
 		}
 		switch ch {
 		case 'E':
@@ -507,7 +533,7 @@ func TestC17_NaNKeys(t *testing.T) { nanKeysTest(t, "C17", "TestC17_NaNKeys", c1
 func TestC14_NaNKeys(t *testing.T) { nanKeysTest(t, "C14", "TestC14_NaNKeys", c14Rule) }
 
 func nanKeysTest(t *testing.T, property, test, rule string) {
-	r := rec(t, property, rule+"; TestC17_NaNKeys: maps with 0-4 entries under keys that are not equal to themselves (NaN as float64 / float32 / interface / array / struct key) next to ordinary entries, elements true / false / erroring, 60 repetitions: kept multiset = element-wise, error iff an element errors, input unchanged (exhaustive)")
+	r := rec(t, property, rule+"; TestC17_NaNKeys: maps with 0-4 entries under keys that are not equal to themselves (NaN as float64 / float32 / interface / array / struct key; the nil interface as key of map[interface{}]T and map[error]T) next to ordinary entries, elements true / false / erroring, 60 repetitions: kept multiset = element-wise, error iff an element errors, input unchanged (exhaustive)")
 	r.Exhaustive = true
 	r.ExhaustiveOf = "key kind x {T,F,E}^(0..3) NaN-keyed entries x {T,F,E}^(0..2) ordinary entries"
 	var seqs func(alpha string, max int) []string
@@ -525,8 +551,11 @@ func nanKeysTest(t *testing.T, property, test, rule string) {
 		return out
 	}
 	n := 0
-	for kk := 0; kk < 5; kk++ {
+	for kk := 0; kk < 7; kk++ {
 		for _, el := range seqs("TFE", 3) {
+			if kk >= 5 && len(el) > 1 {
+				continue // there is one nil key
+			}
 			for _, pl := range seqs("TFE", 2) {
 				c := &c17NaNCase{KeyKind: kk, Elems: el, Plain: pl, Text: "x == 1"}
 				c17NaNRun(t, property, test, c)
